@@ -32,7 +32,7 @@ pub fn prop() -> Prop {
          result has exactly the provided-or-defaulted declared variables with the reference's coerced values. \
          Non-trivial: some variable type has a list or an input object; distinct by operation + variables + schema text.",
     )
-    .random("coerce", check, |t| if t == Tier::Quick { 500_000 } else { 5_000_000 }, |t| if t == Tier::Quick { 700 } else { 1000 })
+    .random("coerce", check, |t| if t == Tier::Quick { 1_200_000 } else { 5_000_000 }, |t| if t == Tier::Quick { 700 } else { 1000 })
     .text(check_text)
     .assumptions(&[
         "apollo's documented scalar rules are the oracle: Int = integer JSON number within 32 bits; Float = any float-typed JSON number, integer-typed ones only up to 2^53-1 in magnitude (CHANGELOG 1.31.0); ID = string or integer, kept as transported; no string->number/boolean coercion; custom scalars accept any JSON value unchanged; enums are JSON strings",
